@@ -12,8 +12,14 @@ package cidprimary
 //@   guarded_by curPool : flushLock & poolLk read flushLock | poolLk.R
 //@   guarded_by writer : flushLock
 
-//@ func (cp *CIDPrimary) flushBlock(key []byte, value []byte) (work types.Work, err error)  property C16
+//@ func (cp *CIDPrimary) flushBlock(key []byte, value []byte) (work types.Work, err error)  property C16 C07
 //@   holds cp.flushLock
+//@   local requires len(key) + len(value) < (1 << 31)
+// record layout (writer side): 4-byte little-endian size prefix (key + value length), key, value
+//@   assert at before call (*bufio.Writer).Write#0: @layout-size-prefix len($a1) == 4 && le32(bytes($a1), 0) == len(key) + len(value)
+//@   assert at before call (*bufio.Writer).Write#1: @layout-key $a1 == key
+//@   assert at before call (*bufio.Writer).Write#2: @layout-value $a1 == value
+//@   ensures @work err == nil ==> work == len(key) + len(value) + 4
 
 //@ func Open(path string) (cp *CIDPrimary, err error)  property C17
 //@   fresh cp
@@ -51,8 +57,10 @@ package cidprimary
 //@   trusted go-cid reader (dependency): a well-formed CID at the start of data is consumed
 //@   pure
 
-//@ func (cp *CIDPrimary) Get(blk types.Block) (key []byte, value []byte, err error)  property C01
+//@ func (cp *CIDPrimary) Get(blk types.Block) (key []byte, value []byte, err error)  property C01 C07
 //@   preserves cp
+// record layout (reader side): the size prefix and blk.Size bytes are read at the location's offset
+//@   assert at before call (*os.File).ReadAt#0: @whole-record-at-location len($a1) == blk.Size + 4 && (blk.Offset < 9223372036854775808 ==> $a2 == blk.Offset)
 //@   local requires @size-in-range blk.Size < (1 << 31)
 //@   ensures @pooled-next (blk in cp.nextPool.refs) && cp.nextPool.blocks[cp.nextPool.refs[blk]].key != nil ==> err == nil && key == cp.nextPool.blocks[cp.nextPool.refs[blk]].key && value == cp.nextPool.blocks[cp.nextPool.refs[blk]].value
 //@   ensures @pooled-cur !(blk in cp.nextPool.refs) && (blk in cp.curPool.refs) && cp.curPool.blocks[cp.curPool.refs[blk]].key != nil ==> err == nil && key == cp.curPool.blocks[cp.curPool.refs[blk]].key && value == cp.curPool.blocks[cp.curPool.refs[blk]].value
